@@ -4,6 +4,7 @@ The mechanism model is C04's (`SteelVerif/C04/Model.lean`: free list, collector,
 -/
 import SteelVerif.C04.Props
 import SteelVerif.C04.LemmasBound
+import SteelVerif.C19.Roots
 namespace SteelVerif.C19
 open SteelVerif.C04
 
@@ -240,5 +241,109 @@ theorem markedCount_le_reachable (E : Edges) (roots : List Val) (h : Heap) :
   · obtain ⟨e', _, rfl⟩ := List.mem_map.mp he
     cases her
   · exact Reach_markAll.mp hreach
+
+/-! ## root_token_release — a released host root is a root of no later collection -/
+
+/-- Offsets are handed out once: every key in the table was issued before the current offset. -/
+def RootTable.WF {α : Type} (t : RootTable α) : Prop := ∀ e ∈ t.roots, e.1.offset < t.offset
+
+theorem RootTable.WF_step {α : Type} (t : RootTable α) (h : t.WF) (op : RootOp α) : (t.step op).WF := by
+  cases op with
+  | root v =>
+    intro e he
+    simp only [RootTable.step, RootTable.root, List.mem_cons] at he ⊢
+    rcases he with rfl | he
+    · show t.offset < t.offset + 1; omega
+    · have := h e he; show e.1.offset < t.offset + 1; omega
+  | free k =>
+    intro e he
+    simp only [RootTable.step, RootTable.free, List.mem_filter] at he
+    exact h e he.1
+  | collect => exact h
+
+/-- A key that is absent and was issued in the past stays absent, whatever happens later. -/
+theorem RootTable.absent_forever {α : Type} (k : Token) (ops : List (RootOp α)) :
+    ∀ t : RootTable α, t.WF → k.offset < t.offset → (∀ e ∈ t.roots, e.1 ≠ k) →
+      ∀ e ∈ (t.run ops).roots, e.1 ≠ k := by
+  induction ops with
+  | nil => intro t _ _ h; exact h
+  | cons op rest ih =>
+    intro t hw hk h
+    show ∀ e ∈ ((t.step op).run rest).roots, e.1 ≠ k
+    refine ih (t.step op) (RootTable.WF_step t hw op) ?_ ?_
+    · cases op <;> simp only [RootTable.step, RootTable.root, RootTable.free, RootTable.collect] <;> omega
+    · cases op with
+      | root v =>
+        intro e he
+        simp only [RootTable.step, RootTable.root, List.mem_cons] at he
+        rcases he with rfl | he
+        · intro hc
+          have : t.offset = k.offset := by rw [← hc]
+          omega
+        · exact h e he
+      | free k' =>
+        intro e he
+        simp only [RootTable.step, RootTable.free, List.mem_filter] at he
+        exact h e he.1
+      | collect => exact h
+
+/-- **root_token_release.**  Take a value rooted at any moment, let any number of roots be taken, tokens be
+dropped and full collections happen, then drop its token: from then on — through every later operation and
+collection — the entry is gone, so the value is pushed as a host root by no later `Heap::mark`. -/
+theorem root_token_release {α : Type} (t : RootTable α) (hw : t.WF) (v : α) (before after : List (RootOp α)) :
+    let k := (t.root v).2
+    ∀ e ∈ ((((t.root v).1.run before).free k).run after).roots, e.1 ≠ k := by
+  intro k
+  have hw1 : (t.root v).1.WF := RootTable.WF_step t hw (.root v)
+  have hwb : ∀ (ops : List (RootOp α)) (u : RootTable α), u.WF → (u.run ops).WF ∧ u.offset ≤ (u.run ops).offset := by
+    intro ops
+    induction ops with
+    | nil => intro u hu; exact ⟨hu, Nat.le_refl _⟩
+    | cons op rest ih =>
+      intro u hu
+      have := ih (u.step op) (RootTable.WF_step u hu op)
+      refine ⟨this.1, Nat.le_trans ?_ this.2⟩
+      cases op <;> simp only [RootTable.step, RootTable.root, RootTable.free, RootTable.collect] <;> omega
+  obtain ⟨hw2, hle⟩ := hwb before _ hw1
+  apply RootTable.absent_forever k after
+  · intro e he
+    simp only [RootTable.free, List.mem_filter] at he
+    exact hw2 e he.1
+  · show t.offset < _
+    have : (t.root v).1.offset = t.offset + 1 := rfl
+    simp only [RootTable.free]
+    omega
+  · intro e he
+    simp only [RootTable.free, List.mem_filter, decide_eq_true_eq] at he
+    exact he.2
+
+/-- … and until its token is dropped the value IS a root of every collection (host data keeps it alive). -/
+theorem root_token_live {α : Type} (t : RootTable α) (v : α) (ops : List (RootOp α)) :
+    (∀ op ∈ ops, ∀ k, op = RootOp.free k → k ≠ (t.root v).2) →
+      ((t.root v).2, v) ∈ ((t.root v).1.run ops).roots := by
+  intro hfree
+  have gen : ∀ (ops : List (RootOp α)) (u : RootTable α), ((t.root v).2, v) ∈ u.roots →
+      (∀ op ∈ ops, ∀ k, op = RootOp.free k → k ≠ (t.root v).2) → ((t.root v).2, v) ∈ (u.run ops).roots := by
+    intro ops
+    induction ops with
+    | nil => intro u hu _; exact hu
+    | cons op rest ih =>
+      intro u hu hf
+      refine ih (u.step op) ?_ (fun o ho => hf o (List.mem_cons_of_mem _ ho))
+      cases op with
+      | root w => exact List.mem_cons_of_mem _ hu
+      | free k' =>
+        simp only [RootTable.step, RootTable.free, List.mem_filter, decide_eq_true_eq]
+        exact ⟨hu, fun hc => hf _ List.mem_cons_self k' rfl hc.symm⟩
+      | collect => exact hu
+  exact gen ops _ List.mem_cons_self hfree
+
+/-- The variant that releases under the CURRENT generation leaks as soon as one collection separates taking
+and dropping the token: the value stays a host root. -/
+theorem release_under_current_generation_leaks :
+    let t : RootTable Nat := {}
+    let r := t.root 7
+    ((r.1.collect).freeUnderCurrent r.2).hostRoots = [7] ∧ ((r.1.collect).free r.2).hostRoots = [] := by
+  decide
 
 end SteelVerif.C19
